@@ -161,7 +161,7 @@ func (s *c12Scenario) world() *revWorld {
 			nr = 0
 		}
 		o, c := make([]int, nr), make([]int, nr)
-		shapes := [][2]int{{1, 2}, {0, 2}, {0, 0}, {2, 1}}
+		shapes := [][2]int{{2, 1}, {0, 2}, {1, 2}, {0, 0}} // (responders, distribution points) by position; a chain of five has all four
 		for i := 0; i < nr; i++ {
 			o[i], c[i] = shapes[i%4][0], shapes[i%4][1]
 		}
@@ -172,9 +172,9 @@ func (s *c12Scenario) world() *revWorld {
 
 func c12Scenarios(tier mc.Tier) []mc.Scenario {
 	var out []mc.Scenario
-	maxN, bound := 4, 1
+	maxN, bound := 5, 1
 	if tier == mc.Thorough {
-		maxN, bound = 5, 2
+		maxN, bound = 6, 2
 	}
 	pn := map[purposeKind]string{purposeCS: "codesigning", purposeTS: "timestamping"}
 	for n := 1; n <= maxN; n++ {
@@ -361,7 +361,7 @@ func c12Invalid(c *mc.Ctx, p purposeKind) {
 func init() {
 	register(&mc.Check{
 		ID: "C12", Title: "Revocation results are complete, positional and internally consistent", DesignRef: "DESIGN.md §4 C12",
-		Rule: "Chains of length 1..4 (quick) / 1..5 (thorough) whose certificates name distinct URLs (1..2 responders, 1..2 distribution points, one certificate with distribution points only, one with neither), every per-source outcome class with <=1 (quick) / <=2 (thorough) deviations, " +
+		Rule: "Chains of length 1..5 (quick) / 1..6 (thorough) whose certificates name distinct URLs (1..2 responders, 1..2 distribution points, one certificate with distribution points only, one with neither), every per-source outcome class with <=1 (quick) / <=2 (thorough) deviations, " +
 			"both purposes and the three entry points: the documented shape rules are checked on every result list independently of the source model, and each position is compared with the decision-table reference; every chain-validation violation class at length 3, the empty and the nil chain " +
 			"must yield InvalidChainError and nil results; engine E2 enumerates all completion orders of the concurrent per-certificate checks (up to 4 workers, patterns with one or two exchanges per worker) and re-checks shape and position under each.",
 		Assumptions: []string{"per-source outcome classes are represented by one behaviour each", "the method label of a certificate without responders at the OCSP-only entry point is not judged"},
